@@ -327,6 +327,15 @@ def run(chk, ctx):
             chk.undecide('C05.W', cons, why)
         else:
             chk.ob('C05.W', cons, okk, why, site='pamqp/header.py')
+    # what is decoded comes from the frame alone: the decode side keeps
+    # nothing between calls (a cache of decoded tables or headers hands out
+    # objects an earlier caller may have changed)
+    from .c16 import decode_keeps_state
+    kept_ = decode_keeps_state(ctx)
+    chk.ob('C05.S', 'decode side keeps no state', not kept_,
+           'no memoising wrapper and no write to module- or class-level '
+           'objects on the decode side' if not kept_ else
+           '; '.join(kept_[:2]), site='pamqp/decode.py / pamqp/frame.py')
     flag_bit_rule(chk, ctx)
     # the content decoders get the payload as the peer sent it
     from .c06 import payload_edits
